@@ -31,6 +31,8 @@ import RV.Base.Proto
     iter d                           -> sorted quads   (`Dataset.__iter__`)
     iadd d s,p,o,G …                 -> ok | AssertionError   (`Dataset.__iadd__`: `ds += quads`)
     graphnew d n                     -> ok       (`ds.graph()` / `graph(None)`: the n-th fresh name, key 200+n)
+    rmgraphnone d n                  -> ok       (`ds.remove_graph(None)`: a graph under a brand-new name, key 300+n)
+    (graph argument `o<k>`: a ConjunctiveGraph object named k, of this or another store — returned as is by `_graph`)
     cerr                             -> ok | raised   (did any store operation of the concrete Memory model raise)
 
   Round g: the driver runs TWO models in lockstep on every line — the Dataset layer over C01's concrete
@@ -78,6 +80,9 @@ def garg? (w : String) : Option (Option GArg) :=
   else if w = "N" then some (some .none)
   else if w.startsWith "i" then (w.drop 1).toNat?.map (fun k => some (.ident k))
   else if w.startsWith "v" then (w.drop 1).toNat?.map (fun k => some (.view k))
+  -- `o<k>`: a ConjunctiveGraph / Dataset OBJECT named k, of this or of another store: `_graph` returns it as is
+  -- (`isinstance(c, (Dataset, ConjunctiveGraph))`), exactly like a same-store Graph object
+  else if w.startsWith "o" then (w.drop 1).toNat?.map (fun k => some (.view k))
   else if w.startsWith "f" then
     match (w.drop 1).toString.splitOn ":" with
     | [k, ts] => do
@@ -143,7 +148,7 @@ def freshKey (n : Nat) : Key := 200 + n
 def step (s : St) : List String → St × String
   | ["reset", a, b] =>
     match bool? a, bool? b with
-    | some a, some b => (⟨Mem.empty, RV.C01.Mem.init, a, b⟩, "ok")
+    | some a, some b => (⟨Mem.empty, RV.C01.NMem.init, a, b⟩, "ok")
     | _, _ => (s, "bad-op")
   | ["add", w, a, b, c, g] =>
     match top? w, triple3? a b c, garg? g with
@@ -224,6 +229,12 @@ def step (s : St) : List String → St × String
       ({ s with mem := dsGraph (s.cfg true) s.mem (.ident (freshKey n)),
                 cm := Conc.dsGraphFresh (s.cfg true) s.cm (freshKey n) }, "ok")
     | _, _ => (s, "bad-op")
+  | ["rmgraphnone", w, n] =>
+    match top? w, n.toNat? with
+    | some true, some n =>
+      ({ s with mem := dsRemoveGraph (s.cfg true) s.mem (300 + n),
+                cm := Conc.dsRemoveGraphNone (s.cfg true) s.cm (300 + n) }, "ok")
+    | _, _ => (s, "bad-op")
   | ["rmgraph", w, k] =>
     match top? w, k.toNat? with
     | some true, some k =>
@@ -258,7 +269,7 @@ def step (s : St) : List String → St × String
     | some k => (s, both (toString (Conc.vLen s.cm k)) (toString (vLen s.mem k)))
     | none => (s, "bad-op")
   | ["sctx"] => (s, both (showKeys (Conc.storeContexts s.cm)) (showKeys s.mem.allc))
-  | ["cerr"] => (s, if s.cm.err then "raised" else "ok")
+  | ["cerr"] => (s, if s.cm.cx.err then "raised" else "ok")
   | ["setdu", w, b] =>
     match top? w, bool? b with
     | some w, some b =>
@@ -304,4 +315,4 @@ def step (s : St) : List String → St × String
     | _, _, _ => (s, "bad-op")
   | _ => (s, "bad-op")
 
-def main : IO Unit := RV.Proto.run step (⟨Mem.empty, RV.C01.Mem.init, false, true⟩ : St)
+def main : IO Unit := RV.Proto.run step (⟨Mem.empty, RV.C01.NMem.init, false, true⟩ : St)
